@@ -174,7 +174,21 @@ type revWorld struct {
 	acc    *revocation.Accumulator
 	sacc   *revocation.SignedAccumulator
 	events []*revocation.Event // all events, index 0..n
+
+	byIndex      map[uint64]*revocation.Accumulator
+	saccsByIndex map[uint64]*revocation.SignedAccumulator
 }
+
+func (w *revWorld) record() {
+	if w.byIndex == nil {
+		w.byIndex = map[uint64]*revocation.Accumulator{}
+		w.saccsByIndex = map[uint64]*revocation.SignedAccumulator{}
+	}
+	w.byIndex[w.acc.Index] = w.acc
+	w.saccsByIndex[w.acc.Index] = w.sacc
+}
+
+func (w *revWorld) accAt(i uint64) *revocation.Accumulator { return w.byIndex[i] }
 
 func newRevWorld(kp *vfk.KeyPair) (*revWorld, error) {
 	upd, err := revocation.NewAccumulator(kp.Sk)
@@ -185,7 +199,9 @@ func newRevWorld(kp *vfk.KeyPair) (*revWorld, error) {
 	if err != nil {
 		return nil, err
 	}
-	return &revWorld{kp: kp, acc: acc, sacc: upd.SignedAccumulator, events: upd.Events}, nil
+	w := &revWorld{kp: kp, acc: acc, sacc: upd.SignedAccumulator, events: upd.Events}
+	w.record()
+	return w, nil
 }
 
 func (w *revWorld) newWitness() (*revocation.Witness, error) {
@@ -210,6 +226,7 @@ func (w *revWorld) revoke(e *big.Int) (*revocation.Update, error) {
 	w.acc = acc
 	w.sacc = upd.SignedAccumulator
 	w.events = append(w.events, ev)
+	w.record()
 	return upd, nil
 }
 
